@@ -183,7 +183,7 @@ func init() {
 	Props["C11"] = &PropSpec{
 		ID: "C11", Level: "exploration",
 		Technique: "deterministic simulation: seeded histories that end with chosen primary/index files holding no live data (or falling below the low-use threshold), followed by bounded rounds of (GC cycle, Flush) with progress, conservation and fixed-point checks on the simulated disk",
-		Rule: "one case = generated history on the multihash primary with 32 B-1 KiB file limits; then (mode 0/2) every key whose current location (read through Index.Get) lies in a chosen subset of the non-current primary files is removed or overwritten and the change flushed, or (mode 1) files are pushed below a low-use threshold t in {1,50,74,85}; oracle: within B = 10 + 4*moved records rounds (12 + 6*moved for low-use draining; x3 with countdown-interrupted cycles) of (primary GC, Flush) every targeted file is zero-length or unlinked, the oldest file if targeted is unlinked and the header first-file number advanced; mode 2: index files no bucket refers into are emptied within 2 + #index-files index GC cycles; GC cycle errors are violations; cycles without relocation never increase StorageSize, a flush after a relocating cycle grows the primary by at most the relocated bytes; repeated rounds reach a fixed point (3 consecutive rounds changing no file) within a bound and never leave it; background class (25% of modes 0/2): after the flush the store is closed and reopened with its own collectors (interval 2-31 ms simulated, time limit 0/1/3 ms) and flusher and left idle: the same files must be released within B + 2 + #index-files + 12 GC intervals of simulated time (x3 with a time limit) and the files must then stop changing for 3 consecutive intervals - this is what runs the collectors' timer loops, the index collector's skipping of the free-file scan and time-limited cycles that resume; " +
+		Rule: "one case = generated history on the multihash primary with 32 B-1 KiB file limits; then (mode 0/2) every key whose current location (read through Index.Get) lies in a chosen subset of the non-current primary files is removed or overwritten and the change flushed, or (mode 1) files are pushed below a low-use threshold t in {1,50,74,85}; oracle: within B = 10 + 4*moved records rounds (12 + 6*moved for low-use draining; x3 with countdown-interrupted cycles) of (primary GC, Flush) every targeted file is zero-length or unlinked, the oldest file if targeted is unlinked and the header first-file number advanced; mode 2: index files no bucket refers into are emptied within 2 + #index-files index GC cycles; GC cycle errors are violations; cycles without relocation never increase StorageSize, a flush after a relocating cycle grows the primary by at most the relocated bytes; repeated rounds reach a fixed point (3 consecutive rounds changing no file) within a bound and never leave it; background class (25% of all modes): after the flush the store is closed and reopened with its own collectors (interval 2-31 ms simulated, time limit 0/20/60 ms) and flusher and left idle: the same files must be released within B + 2 + #index-files + 12 cycles of each collector (x3 with a time limit; cycles counted on the simulated disk, simulated time only caps the wait) and the contents of the non-empty files must then stop changing for 3 consecutive steps of >= 1 cycle - this is what runs the collectors' timer loops, the index collector's skipping of the free-file scan and time-limited cycles that resume; " +
 			"non-trivial = at least one targeted file was released or a fixed point was verified after real GC work; distinct = distinct (plan hash, schedule hash)",
 		Nontrivial: func(o *RunOut) bool {
 			return o.Probes["primary-released"]+o.Probes["index-released"]+o.Probes["bg-released"] > 0
